@@ -126,9 +126,10 @@ def run_real(case_):
     b2 = econ.build(spec, order_seed=case_['keys'], maxtime=K, hooks=hooks)
     labels, feats = c01.classify(spec)
     names = [type(b.error).__name__ if b.error is not None else 'ok' for b in (b1, b2)]
-    if 'ConvergenceError' in names:
+    from sfc_models.equation_solver import ConvergenceError
+    if any(isinstance(b.error, ConvergenceError) for b in (b1, b2)):
         raise Reject('no convergence (%s/%s)' % tuple(names))
-    if names[0] != names[1]:
+    if (names[0] == 'ok') != (names[1] == 'ok'):
         raise Violation('C08/real-outcome-differs', 'canonical order: %s; permuted order %r: %s (%s)' %
                         (names[0], b2.decl_order, names[1], b2.error or b1.error))
     if names[0] != 'ok':
